@@ -32,6 +32,8 @@ type vfModel struct {
 	short       *vfRand // if set: READ replies carry a random non-empty prefix of what was asked (legal for a server)
 	dupID       string
 	badFrame    string
+	dirEntries  int            // if > 0: every directory handle lists that many entries in one NAME reply, then EOF
+	dirRead     map[string]int // READDIR requests seen per directory handle
 }
 
 func (m *vfModel) handler(req vfPkt, raw []byte) []byte {
@@ -73,8 +75,32 @@ func (m *vfModel) handler(req vfPkt, raw []byte) []byte {
 	case rfClose:
 		return st(rfOK, "")
 	case rfOpendir:
+		if m.dirEntries > 0 {
+			m.mu.Lock()
+			m.nh++
+			h := fmt.Sprintf("dir-%d", m.nh)
+			m.mu.Unlock()
+			return vfPkt{Type: rfHandle, ID: req.ID, Handle: h}.Frame()
+		}
 		return vfPkt{Type: rfHandle, ID: req.ID, Handle: "dir"}.Frame()
 	case rfReaddir:
+		if m.dirEntries > 0 {
+			m.mu.Lock()
+			if m.dirRead == nil {
+				m.dirRead = map[string]int{}
+			}
+			m.dirRead[req.Handle]++
+			first := m.dirRead[req.Handle] == 1
+			m.mu.Unlock()
+			if first {
+				var names []vfName
+				for i := 0; i < m.dirEntries; i++ {
+					nm := fmt.Sprintf("entry-%d", i)
+					names = append(names, vfName{Name: nm, Long: "-rw-r--r-- 1 0 0 7 Jan  1 00:00 " + nm, Attrs: vfAttrs{Flags: 0xD, Size: 7, Perm: 0o100644, Mtime: 1}})
+				}
+				return vfPkt{Type: rfName, ID: req.ID, Names: names}.Frame()
+			}
+		}
 		return st(rfEOF, "EOF")
 	case rfFstat:
 		m.mu.Lock()
